@@ -107,6 +107,12 @@ CHECKS = [
         "text": "108 generated classes x 3 dynamic aliasers x {parameter, settings} route: the expected external name dyn(class_aliaser(alias or name)) must be the key consumed by deserialize (every other candidate spelling is rejected with missing/unexpected at the right keys), the key emitted by serialize, the entry of properties / required / dependentRequired of both schemas, the loc of structural, field-validator and yielded get_alias errors (plain, nested, flattened), the GraphQL output field, input field and argument names and the loc of a GraphQL argument error.",
         "note": "GraphQL views only for names that are valid GraphQL identifiers.",
     },
+    {
+        "id": "C12", "engine": "E1", "design_ref": "DESIGN.md §5 C12",
+        "technique": "exhaustive enumeration of conversion worlds (graph x placement x source type x context x datum) with a commuting-square oracle on the real code",
+        "text": "For every conversion graph (single, catch_value_error, lazy; two deserializers in both orders, chain, generic, inherited / non-inherited serializer, annotated class, identity bypass) x placement (registered, dynamic, Annotated, field metadata, default_conversion) x source type (int, str, List[int], dataclass) x 9 contexts x every datum of the source pool: deserialize(C[K], d) == map_C(f, deserialize(C[S], d)) with identical rejections and errors, serialize(C[K], v) == serialize(C[U], g(v)), both schemas equal those of the source / target type (plus the class's own schema()/type_name), dynamic conversions must not reach into object fields, identity gives the unconverted behaviour.",
+        "note": "The implementation on the source/target type is the reference (C01/C04 check it). Schemas under a per-call default_conversion are compared modulo the `default` annotation.",
+    },
 ]
 _PENDING = "check not built yet in this round (planned, see DESIGN.md §5); not claimed until it runs green"
-NOT_APPLICABLE = [{"property_id": f"C{i:02d}", "reason": _PENDING} for i in range(4, 20) if i not in (4, 5, 6, 7, 8, 9, 10, 11, 13, 14, 15, 16, 17, 18)]
+NOT_APPLICABLE = [{"property_id": f"C{i:02d}", "reason": _PENDING} for i in range(4, 20) if i not in (4, 5, 6, 7, 8, 9, 10, 11, 12, 13, 14, 15, 16, 17, 18)]
